@@ -184,6 +184,12 @@ def run(ctx):
                 continue
             seen.add(key)
             stacks.append(s)
+    # stacks deeper than the grammar bound: the positional helper is generated per depth 1..10
+    from checks.c17 import deep_helper_stacks
+    for s in deep_helper_stacks():
+        if s.cpp_type() not in seen and g.view_fits(s):
+            seen.add(s.cpp_type())
+            stacks.append(s)
     per_tu = 30
     tus = []
     for b in range(0, len(stacks), per_tu):
